@@ -41,7 +41,7 @@ type C07Case struct {
 
 func genC07(t *rapid.T) C07Case {
 	o := worldOpts()
-	w := gen.GenWorld(t, o)
+	w := gen.AnyWorld(t, o)
 	base := genRequests(t, w, o, 1, 4)
 	var items []sut.BatchItem
 	n := rapid.IntRange(1, 14).Draw(t, "nItems")
